@@ -5,4 +5,4 @@ import sys
 sys.path[:0] = ['/repo' + "/pulser-core", '/repo' + "/pulser-simulation", "/verif"]
 from symx.replay import replay
 sys.exit(replay(check='checks.c16', kernel='phase_fp', shape={},
-                assignment={'x_bits': 9223372036855824384}, label='k4:fp_phase_below_2pi'))
+                assignment={'x_bits': 10718567113141780488}, label='k4:fp_phase_below_2pi'))
